@@ -67,6 +67,9 @@ META["rule"] += (
 META["rule"] += (
     " " + 'Added after the sixth round: the cache shadow fingerprints every mutable memoised value when it is stored and compares at every later hit (memoised-value-modified); state changes applied to a clone (copy(), deep copy, pickle round trip) are neutral steps; answers handed out by method calls before a state change are compared after it; the twin is asked in reverse order on odd steps; 12 % of the cases ask all queries that read the link attribute.')
 
+META["rule"] += (
+    " " + 'Added after the seventh round: the object as an argument of the cross-link generators / FromIGraph; histories continue on deep copies, pickle round trips and (plain networks) save -> Load; refused pair arguments on joint plots.')
+
 def pre_import():
     from pvm.mon import shadow_cache
     shadow_cache.install()
